@@ -123,3 +123,51 @@ def p256_points_with_small_x(r, want=2, bound_bits=200, max_tries=400):
             if len(out) >= want:
                 break
     return out
+
+
+# ---- plain affine P-256 arithmetic (only to CRAFT inputs: an ephemeral point whose shared secret with a given recipient is special)
+def _p256_add(P, Q):
+    from .oracle_openssl import P256_P as p
+    if P is None:
+        return Q
+    if Q is None:
+        return P
+    (x1, y1), (x2, y2) = P, Q
+    if x1 == x2 and (y1 + y2) % p == 0:
+        return None
+    if P == Q:
+        lam = (3 * x1 * x1 - 3) * pow(2 * y1, -1, p) % p
+    else:
+        lam = (y2 - y1) * pow(x2 - x1, -1, p) % p
+    x3 = (lam * lam - x1 - x2) % p
+    return x3, (lam * (x1 - x3) - y1) % p
+
+
+def _p256_mul(k, P):
+    R = None
+    while k:
+        if k & 1:
+            R = _p256_add(R, P)
+        P = _p256_add(P, P)
+        k >>= 1
+    return R
+
+
+def ephemeral_for_shared_x(d, want_x):
+    """an ephemeral PUBLIC point R with d * R = (want_x, y) for the recipient's private scalar d, or None if want_x is not an
+    x-coordinate of the curve: R = d^-1 * (want_x, y)"""
+    from .oracle_openssl import P256_P as p, P256_B as b, P256_N as n
+    rhs = (want_x ** 3 - 3 * want_x + b) % p
+    y = pow(rhs, (p + 1) // 4, p)
+    if y * y % p != rhs:
+        return None
+    R = _p256_mul(pow(d, -1, n), (want_x % p, y))
+    return R[0].to_bytes(32, "big") + R[1].to_bytes(32, "big")
+
+
+def scalar_of_sec1(priv_der):
+    """private scalar of an OpenSSL SEC1 ECPrivateKey DER (30 .. 02 01 01 04 20 <32 bytes> ..)"""
+    i = priv_der.find(b"\x02\x01\x01\x04\x20")
+    if i < 0:
+        raise ValueError("not a P-256 SEC1 private key")
+    return int.from_bytes(priv_der[i + 5:i + 37], "big")
